@@ -2,6 +2,9 @@ import LlgoVerif.Lemmas.Path
 import LlgoVerif.Lemmas.Extract
 import LlgoVerif.Lemmas.ExtractPreserve
 import LlgoVerif.Lemmas.ExtractLock
+import LlgoVerif.Lemmas.Gzip
+import LlgoVerif.Lemmas.Tar
+import LlgoVerif.Lemmas.Zip
 /-!
 # C20 — SDK archive extraction stays inside its destination and preserves contents
 
@@ -15,7 +18,7 @@ protocol over any number of processes); specification: `Spec/Extract.lean`; lemm
 `…_counterexample` (concrete witness, replayed on the real code by `checks/c20.py`) and a `…_partial`.
 -/
 namespace LlgoVerif.C20
-open LlgoVerif.Path LlgoVerif.Extract LlgoVerif.ExtractLock
+open LlgoVerif.Path LlgoVerif.Extract LlgoVerif.ExtractLock LlgoVerif.Container
 
 /-! ## 1. `filepath.Clean` -/
 
@@ -430,5 +433,234 @@ theorem lock_complete_copy_counterexample : ¬ LockCompleteCopy true := by
     obtain ⟨w, hw⟩ := h 2 s (reach_of_run _ _ _ Reach.init hs) [1] h1
     have := congrArg List.length hw
     simp at this
+
+/-! ## 6. The container layer: from the bytes of the archive file to the entries
+
+Models: `Model/Gzip.lean` (`compress/gzip` + `compress/flate`), `Model/Tar.lean` (`archive/tar.Reader`, and
+`extractTarGzBytes` = the whole of `extractTarGz` on the bytes of the file).  Writers (what a well-formed
+container is): `Spec/Container.lean`. -/
+
+/-- **a `.gz` file is the concatenation of its members, and the reader delivers the concatenation of their
+    payloads**: for every non-empty list of members — any optional header fields, any cut of each payload into
+    stored blocks — `gzip.NewReader` succeeds and the stream read to its end is `payload₁ ++ payload₂ ++ …`,
+    ending in a clean `io.EOF`. -/
+theorem gunzip_members (m : GzMember) (ms : List GzMember) (hm : m.WF) (hms : ∀ x ∈ ms, x.WF) :
+    Gzip.gunzip true (gzFile (m :: ms)) = .ok ⟨(m :: ms).flatMap GzMember.payload, none⟩ :=
+  Gzip.gunzip_gzFile_aux m ms hm hms
+
+def gzExample : GzMember :=
+  { text := false, extra := some [1, 2], name := some [115, 100, 107], comment := none, hcrc := true, mtime := 1700000000,
+    xfl := 0, os := 3, blocks := [[1, 2, 3], []], last := [4] }
+
+example : gzExample.WF :=
+  ⟨(by intro b h; cases h; decide), (by intro b h; cases h; decide), (by intro b h; cases h), (by decide), (by decide)⟩
+
+/-- a reader that stops after the first member (`Multistream(false)`) delivers the first payload only — the
+    later members' files would silently be missing.  `extractTarGz` must not do that (`gunzip_members` is what the
+    model of the code as it is says; the correspondence runs hold the real code to it). -/
+theorem gunzip_first_member_only (m : GzMember) (ms : List GzMember) (hm : m.WF) :
+    Gzip.gunzip false (gzFile (m :: ms)) = .ok ⟨m.payload, none⟩ :=
+  Gzip.gunzip_single_gzFile m ms hm
+
+/-- **the extraction result does not depend on how the tar stream is cut into gzip members**: two files whose
+    members' payloads concatenate to the same stream are extracted identically (same tree, same error status),
+    whatever the stream is — well-formed tar or not. -/
+theorem extractTarGz_cut_independent (cfg : Cfg) (dest : Str) (fs : FS)
+    (m : GzMember) (ms : List GzMember) (m' : GzMember) (ms' : List GzMember)
+    (hm : m.WF) (hms : ∀ x ∈ ms, x.WF) (hm' : m'.WF) (hms' : ∀ x ∈ ms', x.WF)
+    (hsame : (m :: ms).flatMap GzMember.payload = (m' :: ms').flatMap GzMember.payload) :
+    Tar.extractTarGzBytes cfg dest fs (gzFile (m :: ms)) = Tar.extractTarGzBytes cfg dest fs (gzFile (m' :: ms')) := by
+  unfold Tar.extractTarGzBytes
+  rw [gunzip_members m ms hm hms, gunzip_members m' ms' hm' hms', hsame]
+
+example : ([gzExample, { gzExample with blocks := [], last := [] }].flatMap GzMember.payload) =
+    ([{ gzExample with blocks := [[1], [2]], last := [3, 4] }].flatMap GzMember.payload) := by decide
+
+/-- **tar framing**: the members come back in order with their names (of any length: GNU long-name members are
+    resolved) and contents, and **what follows the end-of-archive marker is ignored** — `tail` is two zero blocks
+    followed by anything (`EndsArchive.marker junk tl`, even a reader error `tl` behind it), a single zero block
+    at the end of the stream, or the bare end of the stream at a member boundary. -/
+theorem readTar_members (ms : List TarMember) (hwf : ∀ m ∈ ms, m.WF) (tail : Gzip.Bytes) (tl : Option Gzip.Err)
+    (hend : Tar.EndsArchive tail tl) :
+    Tar.readTar ⟨tarStream ms ++ tail, tl⟩ = (ms.map TarMember.entry, .eof) :=
+  Tar.readTar_tarStream ms hwf tail tl hend
+
+def tarExample : List TarMember :=
+  [{ kind := .dir, name := Tar.bytesOf "sdk/", data := [] },
+   { kind := .reg, name := Tar.bytesOf "sdk/" ++ List.replicate 120 120 ++ Tar.bytesOf "/clang", data := [1, 2, 3] }]
+
+set_option maxRecDepth 20000 in
+example : ∀ m ∈ tarExample, m.WF := by
+  intro m hm
+  simp only [tarExample, List.mem_cons, List.mem_nil_iff, or_false] at hm
+  rcases hm with rfl | rfl <;> exact ⟨by decide, by decide, by decide⟩
+
+/-- **from the bytes to the entries**: a file made of gzip members (cut anywhere) whose payloads concatenate to a
+    written tar stream is extracted exactly as the entry-level model extracts the list of entries the stream
+    means — so every theorem of sections 3 and 4 about lists of entries is a theorem about archive files. -/
+theorem extractTarGz_bytes_entries (cfg : Cfg) (dest : Str) (fs : FS)
+    (m : GzMember) (ms : List GzMember) (hm : m.WF) (hms : ∀ x ∈ ms, x.WF)
+    (tms : List TarMember) (hwf : ∀ t ∈ tms, t.WF) (tail : Gzip.Bytes) (hend : Tar.EndsArchive tail none)
+    (hpay : (m :: ms).flatMap GzMember.payload = tarStream tms ++ tail) :
+    Tar.extractTarGzBytes cfg dest fs (gzFile (m :: ms)) =
+      some (extract cfg .tgz dest fs (tms.map TarMember.entry)) := by
+  unfold Tar.extractTarGzBytes
+  rw [gunzip_members m ms hm hms, hpay]
+  simp only [readTar_members tms hwf tail none hend]
+  unfold Tar.finish
+  cases h : extract cfg .tgz dest fs (tms.map TarMember.entry) with
+  | mk fs' e => cases e <;> rfl
+
+/-- **preservation, from the bytes**: for a well-formed archive (the entries the members mean are `wellFormed`),
+    written with names of any length, closed in any of the three ways, and cut into gzip members anywhere, the
+    repaired code recreates exactly the archived tree `specTree` below the destination. -/
+theorem extractTarGz_bytes_preserve (dest : Str) (habs : dest.head? = some '/') (hd : comps (clean dest) ≠ [])
+    (fs : FS) (hr : DestReady fs (comps (clean dest))) (hempty : TreeAt (comps (clean dest)) fs [])
+    (m : GzMember) (ms : List GzMember) (hm : m.WF) (hms : ∀ x ∈ ms, x.WF)
+    (tms : List TarMember) (hwf : ∀ t ∈ tms, t.WF) (tail : Gzip.Bytes) (hend : Tar.EndsArchive tail none)
+    (hpay : (m :: ms).flatMap GzMember.payload = tarStream tms ++ tail)
+    (hok : wellFormed .tgz (tms.map TarMember.entry) = true) :
+    ∃ fs', Tar.extractTarGzBytes Cfg.fixed dest fs (gzFile (m :: ms)) = some (fs', none) ∧
+      TreeAt (comps (clean dest)) fs' (specTree (tms.map TarMember.entry)).1 ∧
+      DestReady fs' (comps (clean dest)) := by
+  obtain ⟨h1, _, h3, h4⟩ := preserve_fixed .tgz dest habs hd fs hr hempty (tms.map TarMember.entry) hok
+  refine ⟨(extract Cfg.fixed .tgz dest fs (tms.map TarMember.entry)).1, ?_, h3, h4⟩
+  rw [extractTarGz_bytes_entries Cfg.fixed dest fs m ms hm hms tms hwf tail hend hpay]
+  cases h : extract Cfg.fixed .tgz dest fs (tms.map TarMember.entry) with
+  | mk fs' e => rw [h] at h1; simp at h1; rw [h1]
+
+set_option maxRecDepth 20000 in
+example : wellFormed .tgz (tarExample.map TarMember.entry) = true := by decide
+
+/-- **confinement, for every byte string whatsoever**: whatever the bytes of the file are — valid, truncated,
+    damaged, hostile — and whichever way the readers stop, whenever the model answers at all, every path that is
+    not strictly below the destination is as it was. -/
+theorem extractTarGz_bytes_confined (cfg : Cfg) (dest : Str) (habs : dest.head? = some '/') (fs : FS)
+    (hr : DestReady fs (comps (clean dest))) (file : Gzip.Bytes) (fs' : FS) (e : Option Extract.Err)
+    (h : Tar.extractTarGzBytes cfg dest fs file = some (fs', e)) :
+    ∀ q, ¬ Under (comps (clean dest)) q → lookup fs' q = lookup fs q := by
+  obtain ⟨d0, rfl⟩ : ∃ d0, dest = '/' :: d0 := by
+    cases dest with
+    | nil => simp at habs
+    | cons c cs => simp at habs; exact ⟨cs, by rw [habs]⟩
+  unfold Tar.extractTarGzBytes at h
+  cases hg : Gzip.gunzip true file with
+  | error _ =>
+    rw [hg] at h
+    simp only [Option.some.injEq, Prod.mk.injEq] at h
+    obtain ⟨rfl, _⟩ := h
+    intro q _; rfl
+  | ok s =>
+    rw [hg] at h
+    simp only at h
+    have hframe := extractTarGz_confined cfg ('/' :: d0) rfl fs hr (Tar.readTar s).1
+    generalize hx : extract cfg Format.tgz ('/' :: d0) fs (Tar.readTar s).1 = x at h hframe
+    obtain ⟨fs1, e1⟩ := x
+    generalize (Tar.readTar s).2 = tend at h
+    cases e1 with
+    | some err =>
+      simp only [Tar.finish, Option.some.injEq, Prod.mk.injEq] at h
+      obtain ⟨rfl, _⟩ := h
+      exact hframe
+    | none =>
+      cases tend with
+      | eof =>
+        simp only [Tar.finish, Option.some.injEq, Prod.mk.injEq] at h
+        obtain ⟨rfl, _⟩ := h
+        exact hframe
+      | err _ =>
+        simp only [Tar.finish, Option.some.injEq, Prod.mk.injEq] at h
+        obtain ⟨rfl, _⟩ := h
+        exact hframe
+      | unsupported => simp [Tar.finish] at h
+      | partialFile ent _ =>
+        simp only [Tar.finish] at h
+        cases hstep : tarStep cfg ('/' :: d0) fs1 ent with
+        | error err =>
+          rw [hstep] at h
+          simp only [Option.some.injEq, Prod.mk.injEq] at h
+          obtain ⟨rfl, _⟩ := h
+          exact hframe
+        | ok fs2 =>
+          rw [hstep] at h
+          simp only [Option.some.injEq, Prod.mk.injEq] at h
+          obtain ⟨rfl, _⟩ := h
+          have hr1 : DestReady fs1 (comps (clean ('/' :: d0))) := hr.of_frame hframe
+          have f2 := tarStep_frame cfg d0 fs1 fs2 ent hr1 hstep
+          exact fun q hq => (f2 q hq).trans (hframe q hq)
+
+/-! ### zip -/
+
+/-- **zip framing**: `zip.OpenReader` on a written file delivers the members **in the order of the central
+    directory** — whatever the order of the local records, whether some local records are named by no central
+    header (they are ignored) or by two (they appear twice), and with the kind (directory or not) read off the
+    creator's attribute convention or a trailing `/`. -/
+theorem readZip_members (ls : List ZipLocal) (cs : List ZipCentral) (wf : ZipWF ls cs) :
+    Zip.readZip (zipFile ls cs) = .ok (cs.map (ZipCentral.entry ls)) :=
+  Zip.readZip_zipFile ls cs wf
+
+def zipExampleLocals : List ZipLocal :=
+  [{ name := Tar.bytesOf "orphan", extra := [], data := [9] },
+   { name := Tar.bytesOf "sdk/x", extra := [1, 0, 0, 0], data := [1, 2, 3] },
+   { name := Tar.bytesOf "sdk", extra := [], data := [] }]
+
+/-- the central directory names the directory first although its local record comes last, leaves the first local
+    record out, and marks the directory by the MS-DOS attribute only (creator FAT) -/
+def zipExampleCentral : List ZipCentral :=
+  [{ idx := 2, creator := 20, extAttrs := 16, extra := [], comment := [] },
+   { idx := 1, creator := 768 + 30, extAttrs := 33188 * 65536, extra := [], comment := [104, 105] }]
+
+set_option maxRecDepth 20000 in
+example : ZipWF zipExampleLocals zipExampleCentral :=
+  ⟨by decide, by decide, by decide, by decide, by decide, by decide⟩
+
+/-- **from the bytes to the entries (zip)**: when the members of a written file mean the entries `es`, and the
+    entry-level loop succeeds on `es`, `extractZip` on the bytes of the file produces the same file system. -/
+theorem extractZip_bytes_entries (cfg : Cfg) (dest : Str) (fs : FS)
+    (ls : List ZipLocal) (cs : List ZipCentral) (wf : ZipWF ls cs) (es : List Entry)
+    (hmean : cs.map (ZipCentral.entry ls) = es.map Zip.ofEntry)
+    (hok : (extract cfg .zip dest fs es).2 = none) :
+    Zip.extractZipBytes cfg dest fs (zipFile ls cs) = some ((extract cfg .zip dest fs es).1, none) := by
+  unfold Zip.extractZipBytes
+  rw [readZip_members ls cs wf, hmean]
+  exact Zip.runZip_ofEntry cfg dest es fs hok
+
+/-- **preservation, from the bytes (zip)**: a written zip file whose members mean a well-formed list of entries is
+    recreated exactly as the archived tree `specTree`, whatever the order of its local records. -/
+theorem extractZip_bytes_preserve (dest : Str) (habs : dest.head? = some '/') (hd : comps (clean dest) ≠ [])
+    (fs : FS) (hr : DestReady fs (comps (clean dest))) (hempty : TreeAt (comps (clean dest)) fs [])
+    (ls : List ZipLocal) (cs : List ZipCentral) (wf : ZipWF ls cs) (es : List Entry)
+    (hmean : cs.map (ZipCentral.entry ls) = es.map Zip.ofEntry) (hok : wellFormed .zip es = true) :
+    ∃ fs', Zip.extractZipBytes Cfg.fixed dest fs (zipFile ls cs) = some (fs', none) ∧
+      TreeAt (comps (clean dest)) fs' (specTree es).1 ∧ DestReady fs' (comps (clean dest)) := by
+  obtain ⟨h1, _, h3, h4⟩ := preserve_fixed .zip dest habs hd fs hr hempty es hok
+  exact ⟨_, extractZip_bytes_entries Cfg.fixed dest fs ls cs wf es hmean h1, h3, h4⟩
+
+set_option maxRecDepth 20000 in
+example : zipExampleCentral.map (ZipCentral.entry zipExampleLocals) =
+    [({ kind := .dir, name := "sdk".toList, data := [], link := [] } : Entry),
+     { kind := .reg, name := "sdk/x".toList, data := [1, 2, 3], link := [] }].map Zip.ofEntry := by decide
+
+/-- **confinement, for every byte string whatsoever (zip)**: with the guard, whatever the bytes of the file are and
+    however `zip.OpenReader`, `Open` or the copy fail, every path not strictly below the destination is as it was. -/
+theorem extractZip_bytes_confined (cfg : Cfg) (hg : cfg.zipGuard = true) (dest : Str) (habs : dest.head? = some '/')
+    (fs : FS) (hr : DestReady fs (comps (clean dest))) (file : Gzip.Bytes) (fs' : FS) (e : Option Extract.Err)
+    (h : Zip.extractZipBytes cfg dest fs file = some (fs', e)) :
+    ∀ q, ¬ Under (comps (clean dest)) q → lookup fs' q = lookup fs q := by
+  obtain ⟨d0, rfl⟩ : ∃ d0, dest = '/' :: d0 := by
+    cases dest with
+    | nil => simp at habs
+    | cons c cs => simp at habs; exact ⟨cs, by rw [habs]⟩
+  unfold Zip.extractZipBytes at h
+  cases hz : Zip.readZip file with
+  | err _ =>
+    rw [hz] at h
+    simp only [Option.some.injEq, Prod.mk.injEq] at h
+    obtain ⟨rfl, _⟩ := h
+    intro q _; rfl
+  | unsupported => rw [hz] at h; cases h
+  | ok es =>
+    rw [hz] at h
+    exact Zip.runZip_frame cfg hg d0 es fs fs' e hr h
 
 end LlgoVerif.C20
